@@ -70,7 +70,19 @@ func exprList(r *Rng, n int) string {
 
 func genC14Stmt(r *Rng, reading bool) c14Stmt {
 	for {
-		switch k := r.Intn(22); {
+		switch k := r.Intn(28); {
+		case k == 22:
+			return c14Stmt{Src: "SELECT id, v FROM a WHERE v IN (5, 6, 2 + 1, @n) OR s IN ('ant', UPPER('dog'), @x) ORDER BY v DESC, id LIMIT 3 OFFSET 1;", Repeat: 2, Reads: true}
+		case k == 23:
+			return c14Stmt{Src: "SELECT id FROM a ORDER BY id LIMIT 50 PERCENT; SELECT id, v FROM a ORDER BY v, id LIMIT 1 + 1 WITH TIES; SELECT id FROM a ORDER BY id LIMIT @n OFFSET @n - 4;", Repeat: 2, Reads: true}
+		case k == 24:
+			return c14Stmt{Src: "DECLARE c2 CURSOR FOR SELECT v, s FROM a ORDER BY id; OPEN c2; VAR @p, @q; FETCH c2 INTO @p, @q; @p := @p + 100; @q := @q || 'zz'; PRINT @p; FETCH FIRST c2 INTO @p, @q; PRINT @p; PRINT @q; FETCH LAST c2 INTO @p, @q; PRINT @q; CLOSE c2; DISPOSE CURSOR c2; DISPOSE @p; DISPOSE @q;", Repeat: 2, Reads: true}
+		case k == 25:
+			return c14Stmt{Src: "DECLARE tl VIEW (k, c); VAR @j := 0; WHILE @j < 2 DO INSERT INTO tl VALUES (1, 'lit'), (2 + @j, 'lit' || 'b'); UPDATE tl SET c = c || 'x', k = k + 10; @j := @j + 1; END WHILE; SELECT * FROM tl; DISPOSE VIEW tl; DISPOSE @j;", Repeat: 2, Reads: true}
+		case k == 26:
+			return c14Stmt{Src: "SELECT id AS k, v AS val, s AS id FROM a WHERE v > 0; SELECT x.id AS v FROM a x ORDER BY x.id DESC LIMIT 2;", Repeat: 2, Reads: true}
+		case k == 27:
+			return c14Stmt{Src: "PREPARE st2 FROM 'SELECT id, v FROM a WHERE v IN (?, ?, 3) AND s <> ? ORDER BY id LIMIT ?'; EXECUTE st2 USING 5, 6, 'cat', 2; EXECUTE st2 USING @n, 1, @x, 5; EXECUTE st2 USING 5, 6, 'cat', 2; DISPOSE PREPARE st2;", Repeat: 2, Reads: true}
 		case k < 5:
 			return c14Stmt{Src: fmt.Sprintf("SELECT id, %s FROM a;", exprList(r, r.Range(2, 6))), Repeat: 2, Reads: true}
 		case k == 5:
@@ -276,6 +288,9 @@ func shellSections(out string) (map[string]string, []string, bool) {
 		case strings.HasPrefix(l, "@ASTCHANGED "):
 			astChanged = append(astChanged, l+" "+strings.Join(lines[i+1:min(i+3, len(lines))], " "))
 			i += 2
+			cur = ""
+		case strings.HasPrefix(l, "@PARSEERR "):
+			secs["parse-error"] += l + "\n"
 			cur = ""
 		case strings.HasPrefix(l, "@Z "):
 			finished = true
